@@ -575,4 +575,91 @@ def AD.jac (a : AD) (ρ : String → Rat) : List (String × List (String × Rat)
 def AD.jacEntry (a : AD) (ρ : String → Rat) (o n : String) : Option Rat :=
   (get (a.jac ρ) o).bind (fun r => get r n)
 
+/-! ### The save/load helpers used more than once in a process (`utils/pickle.py`)
+
+`to_pickle(obj, path)` = `Pickler(f, protocol=2).dump(obj)`: the file receives the state of the object *at that
+moment*; `from_pickle(path)` = `Unpickler(f).load()`: `__setstate__` runs on a newly allocated object, in the
+shared memory of the process as it is now.  The helpers keep nothing between two calls.  A process = the pickle
+files, the shared memory, the live objects in the order they were created (the original, then what the loads
+returned).  Between the calls the objects live: a plain attribute is assigned (a default value, a setting), a
+counter advances (an execution). -/
+
+/-- The pickle files: path ↦ state written last. -/
+abbrev Files := List (String × PState)
+
+structure Proc where
+  files : Files
+  heap : Heap
+  objs : List Obj
+  deriving Repr
+
+inductive POp where
+  | save (i : Nat) (p : String)                 -- `to_pickle(objs[i], p)`
+  | load (p : String)                           -- `objs.append(from_pickle(p))`
+  | assign (i : Nat) (a : String) (v : Rat)     -- `objs[i].a = v`
+  | bump (i : Nat) (a : String)                 -- `objs[i].a.value += 1` (a `Value`) / `objs[i].a += 1` (a number)
+  deriving Repr, DecidableEq
+
+/-- `from_pickle` of a state in the process: the new object and the shared memory afterwards. -/
+def fromPickle (s : Spec) (st : PState) (h : Heap) : Obj × Heap := setstate s st h
+
+/-- `objs[i].a.value += 1` / `objs[i].a += 1`; anything else (no such attribute, a path, a lock): no effect. -/
+def bumpObj (o : Obj) (h : Heap) (a : String) : Obj × Heap :=
+  match get o a with
+  | some (.sync c) => (o, h.set c (h.getD c 0 + 1))
+  | some (.plain v) => (set o a (.plain (v + 1)), h)
+  | _ => (o, h)
+
+def Proc.step (s : Spec) (P : Proc) : POp → Proc
+  | .save i p =>
+    match P.objs[i]? with
+    | none => P
+    | some o =>
+      let st := getstate s o P.heap
+      if picklable st then { P with files := set P.files p st } else P    -- (pickle raises: nothing usable written)
+  | .load p =>
+    match get P.files p with
+    | none => P                                                           -- `FileNotFoundError`
+    | some st =>
+      let r := fromPickle s st P.heap
+      { P with heap := r.2, objs := P.objs ++ [r.1] }
+  | .assign i a v =>
+    match P.objs[i]? with
+    | none => P
+    | some o => { P with objs := P.objs.set i (set o a (.plain v)) }
+  | .bump i a =>
+    match P.objs[i]? with
+    | none => P
+    | some o =>
+      let r := bumpObj o P.heap a
+      { P with heap := r.2, objs := P.objs.set i r.1 }
+
+def Proc.run (s : Spec) (P : Proc) (ops : List POp) : Proc := ops.foldl (Proc.step s) P
+
+/-- What an object shows: every attribute with the shared-memory cells read (`Value.value`). -/
+def observe (o : Obj) (h : Heap) : List (String × SVal) := o.map (fun kv => (kv.1, toS h kv.2))
+
+/-- The shared-memory cells an object refers to. -/
+def cellsOf (o : Obj) : List Nat := o.filterMap (fun kv => match kv.2 with | .sync c => some c | _ => none)
+
+/-- NOT the code (kept for the non-vacuity examples): a `from_pickle` that remembers what it returned for a
+    path and returns it again (index of the object in the process) while the file has not been written again. -/
+structure MemoProc where
+  proc : Proc
+  memo : List (String × Nat)
+
+def MemoProc.step (s : Spec) (M : MemoProc) : POp → MemoProc
+  | .load p =>
+    match get M.memo p with
+    | some _ => M                                   -- the object loaded the first time is returned: nothing new
+    | none =>
+      let P' := M.proc.step s (.load p)
+      if P'.objs.length = M.proc.objs.length then { M with proc := P' }
+      else { proc := P', memo := set M.memo p M.proc.objs.length }
+  | .save i p => { proc := M.proc.step s (.save i p), memo := M.memo.filter (fun kv => kv.1 != p) }
+  | op => { M with proc := M.proc.step s op }
+
+/-- The object a memoizing `from_pickle` returns for a path already loaded. -/
+def MemoProc.loaded (M : MemoProc) (p : String) : Option Obj := (get M.memo p).bind (fun i => M.proc.objs[i]?)
+
 end GV.C20
